@@ -16,10 +16,23 @@ THEOREMS = ['TexSoup.C07.' + n for n in ('reader_strict_tolerant', 'strict_impli
                                   'reader_tolerant_ok', 'lost_brace_tolerant_succeeds', 'lost_end_strict_fails',
                                   'lost_end_strict_error', 'lost_end_tolerant_succeeds', 'lost_closer', 'name_tokens',
                                   'wellNamed_of_tokens')]
+# a lost closing bracket (Properties/C07Brackets.lean)
+LEAN_TARGETS = LEAN_TARGETS + ['TexSoupProofs.Properties.C07Brackets']
+THEOREMS = THEOREMS + ['TexSoup.C07b.' + n for n in (
+    'readArgBody_closer', 'readArg_closer', 'readArgOpt_commits', 'readArgOpt_commits_error', 'lost_bracket_at_start',
+    'lost_bracket_counterexample', 'lost_bracket_example')]
 PARTIAL = ['clause (b) is proved for a lost closing brace and a lost \\end{name} (C07b.lost_closer: strict fails with a '
            'diagnostic, tolerant succeeds) under token-level hypotheses (no math, no \\item, plainly named environments; for '
-           'the \\end case additionally no special or fixed-signature commands); a lost closing BRACKET is explored only: with a '
-           'stray `]` later in the text the clause is false as stated, so the oracle uses documents without stray brackets',
+           'the \\end case additionally no special or fixed-signature commands)',
+           'clause (b) for a lost closing BRACKET: REFUTED as stated when a `]` occurs later in the input '
+           '(C07b.lost_bracket_counterexample: \\x[a]b]c is well-formed, \\x[ab]c still parses strictly); PROVED on the '
+           'reader: a strictly read argument ends at a closer of its kind (readArgBody_closer) and at a `[` behind a command '
+           'that takes optional arguments the reader is committed - with no `]` token in the REST OF THE INPUT (a `}` does not '
+           'stop the search: inside an unclosed `[` it is a text leaf) reading fails with an error (readArgOpt_commits), '
+           'and at document level for a command at the beginning of the input (lost_bracket_at_start); NOT proved for a '
+           'command at an arbitrary place of a well-formed document (needs prefix-read-back-then-error versions of the '
+           'completeness lemmas at every enclosing reader loop) - there it is explored by the oracle on documents without '
+           'stray brackets',
            'clause (c) is proved under the hypothesis bundle Hyp (finding F4b excluded)']
 TRUSTED = ['harness/gen_tables.py', 'correspondence harness (parsecorr.py, common.py), both tolerance modes',
            'modelled, not verified: control flow of reader.py, tokens.py, data.py serialisers']
